@@ -209,6 +209,17 @@ def envelope_docs(entries=None):
                     yield ('envelope:%s:%s:%s@%d:%s' % (e[4], tag, name, i, k), d, {'entry': e, 'valid': False})
 
 
+def address_docs(entries=None):
+    """sender and receiver identified under DIFFERENT qualifiers (ISA05 != ISA07): 1 and 2 interchanges"""
+    ents = entries or [e for e in one_entry_per_map() if e[4] in ('834.4010.X095.A1.xml', '835.5010.X221.A1.xml', '837.5010.X222.A1.xml')]
+    for e in ents:
+        for quals in (('30', 'ZZ'), ('ZZ', '01'), ('01', '30')):
+            for ni in (1, 2):
+                d = build_ok(e, {'interchanges': ni, 'isa_quals': quals})
+                if d is not None:
+                    yield ('address:%s:%s-%s:%d' % (e[4], quals[0], quals[1], ni), d, {'entry': e, 'valid': True})
+
+
 def ta1_docs(entries=None):
     """interchanges that ask for a TA1 (ISA14 = 1): 1..3 interchanges, every non-empty subset of them asking"""
     ents = entries or [e for e in one_entry_per_map() if e[4] in ('834.4010.X095.A1.xml', '835.5010.X221.A1.xml')]
